@@ -38,12 +38,56 @@ var solvers = map[string]solverSpec{
 	"z3-new": {"z3-new", func(f string, s int) []string { return []string{"z3-new", fmt.Sprintf("-T:%d", s), f} }},
 	"z3":     {"z3", func(f string, s int) []string { return []string{"z3", fmt.Sprintf("-T:%d", s), f} }},
 	"cvc5":   {"cvc5", func(f string, s int) []string { return []string{"cvc5", fmt.Sprintf("--tlimit=%d", s*1000), f} }},
+	"z3-new/s1": {"z3-new/s1", func(f string, s int) []string {
+		return []string{"z3-new", fmt.Sprintf("-T:%d", s), "smt.random_seed=7", "sat.random_seed=7", "smt.arith.random_initial_value=true", f}
+	}},
+	"z3-new/s2": {"z3-new/s2", func(f string, s int) []string {
+		return []string{"z3-new", fmt.Sprintf("-T:%d", s), "smt.random_seed=42", "smt.qi.eager_threshold=50", f}
+	}},
+	"z3-new/nombqi": {"z3-new/nombqi", func(f string, s int) []string {
+		return []string{"z3-new", fmt.Sprintf("-T:%d", s), "smt.mbqi=false", "smt.random_seed=3", f}
+	}},
+}
+
+// raceSolvers runs several solver configurations concurrently and returns the first decisive answer.
+func raceSolvers(names []string, file string, secs int) (string, string, string, float64) {
+	type r struct {
+		ans, solver, text string
+		secs              float64
+	}
+	ctx, cancel := context.WithCancel(context.Background())
+	defer cancel()
+	ch := make(chan r, len(names))
+	for _, n := range names {
+		go func(n string) {
+			a, t, el := runSolverCtx(ctx, n, file, secs)
+			ch <- r{a, n, t, el}
+		}(n)
+	}
+	best := r{ans: "timeout", solver: "race"}
+	for i := 0; i < len(names); i++ {
+		x := <-ch
+		if x.ans == "unsat" || x.ans == "sat" {
+			return x.ans, x.solver, x.text, x.secs
+		}
+		if x.ans == "unknown" && best.ans == "timeout" {
+			best = x
+		}
+		if x.secs > best.secs {
+			best.secs = x.secs
+		}
+	}
+	return best.ans, best.solver, best.text, best.secs
 }
 
 func runSolver(name, file string, secs int) (string, string, float64) {
+	return runSolverCtx(context.Background(), name, file, secs)
+}
+
+func runSolverCtx(parent context.Context, name, file string, secs int) (string, string, float64) {
 	sp := solvers[name]
 	argv := sp.args(file, secs)
-	ctx, cancel := context.WithTimeout(context.Background(), time.Duration(secs+5)*time.Second)
+	ctx, cancel := context.WithTimeout(parent, time.Duration(secs+5)*time.Second)
 	defer cancel()
 	cmd := exec.CommandContext(ctx, argv[0], argv[1:]...)
 	var out bytes.Buffer
@@ -171,25 +215,12 @@ func decide(cfg solveCfg, v *Verdict) {
 		a, t, el := runSolver("z3-new", v.File, cfg.quickT)
 		record(a, "z3-new", el, t)
 		if a != "unsat" && a != "sat" && !expectSat {
-			// race the other two
-			type r struct {
-				ans, solver, text string
-				secs              float64
-			}
-			ch := make(chan r, 2)
-			for _, s := range []string{"z3", "cvc5"} {
-				go func(s string) {
-					a, t, el := runSolver(s, v.File, cfg.slowT)
-					ch <- r{a, s, t, el}
-				}(s)
-			}
-			for i := 0; i < 2; i++ {
-				x := <-ch
-				if x.ans == "unsat" || x.ans == "sat" {
-					if v.Answer != "unsat" && v.Answer != "sat" {
-						record(x.ans, x.solver, x.secs, x.text)
-					}
-				}
+			// race several configurations; any unsat is a proof
+			a2, s2, t2, el2 := raceSolvers([]string{"z3-new/s1", "z3-new/s2", "z3-new/nombqi", "z3", "cvc5"}, v.File, cfg.slowT)
+			if a2 == "unsat" || a2 == "sat" {
+				record(a2, s2, el2, t2)
+			} else {
+				v.Secs += el2
 			}
 		}
 	}
